@@ -427,6 +427,9 @@ class World:
     def name_to_ty(self, name, modpath):
         if name in PRIM_NAMES:
             return PRIM_NAMES[name]
+        if name == "ScheduleFunction":
+            # Callable[[SimulationState, VehicleId], bool]: an abstract callable returning bool
+            return FuncTy("ScheduleFunction", [], BoolT)
         if name in ("FrozenSet", "frozenset"):
             return SetTy(AbstractTy("Any"))
         if name in self.repo.classes:
